@@ -144,7 +144,7 @@ fn thread_body(id: usize, prog: Vec<Op>, sh: Arc<Shared>) {
 #[derive(Clone, Debug)]
 struct StepObs { t: usize, out: i64, woke: Vec<(usize, i64)>, occ: Vec<(i64, i64, i64)> }
 #[derive(Debug)]
-enum Fin { Complete { acq: u64, cont: u64, tacq: u64, blocked: Vec<(usize, i64, bool)> }, Trunc }
+enum Fin { Complete { acq: u64, cont: u64, tacq: u64, blocked: Vec<(usize, i64, bool)>, npage: usize, ntable: usize }, Trunc }
 struct Observed { steps: Vec<StepObs>, fin: Fin, sched_run: Vec<usize> }
 
 struct Runner { s: Arc<Scheduler>, sh: Arc<Shared>, blocked: Vec<bool>, n: usize, own: Vec<(usize, usize)> }
@@ -271,6 +271,9 @@ fn run_case(progs: &[Vec<Op>], sched: &[usize]) -> Observed {
             cont: sh.mgr.stats.page_locks_contended.load(Ordering::SeqCst),
             tacq: sh.mgr.stats.table_locks_acquired.load(Ordering::SeqCst),
             blocked,
+            // all threads are parked, blocked in a page lock or finished: nobody holds a shard mutex
+            npage: sh.mgr.debug_entry_counts().0,
+            ntable: sh.mgr.debug_entry_counts().1,
         }
     };
     // unobserved tail: let everybody finish if they can; threads that are blocked for ever are left behind
@@ -312,9 +315,9 @@ fn case_term(progs: &[Vec<Op>], o: &Observed) -> String {
     }).collect();
     let f = match &o.fin {
         Fin::Trunc => "FTrunc".to_string(),
-        Fin::Complete { acq, cont, tacq, blocked } => {
+        Fin::Complete { acq, cont, tacq, blocked, npage, ntable } => {
             let b: Vec<String> = blocked.iter().map(|(u, k, w)| format!("Bl {} {} {}", u, k, cbool(*w))).collect();
-            format!("(FComplete {} {} {} {})", acq, cont, tacq, clist(&b))
+            format!("(FComplete {} {} {} {} {} {})", acq, cont, tacq, clist(&b), npage, ntable)
         }
     };
     format!("Case {} {} {}", clist(&ps), clist(&st), f)
@@ -325,7 +328,9 @@ fn occ_violation(o: &Observed) -> bool {
     o.steps.iter().any(|s| s.occ.iter().any(|(_, w, r)| *w > 1 || (*w >= 1 && *r > 0)))
 }
 fn unjustified_block(o: &Observed) -> bool {
-    if let Fin::Complete { blocked, .. } = &o.fin {
+    if let Fin::Complete { blocked, npage, ntable, .. } = &o.fin {
+        // all guards dropped => both lock tables empty
+        if blocked.is_empty() && (*npage != 0 || *ntable != 0) { return true; }
         let occ = o.steps.last().map(|s| s.occ.clone()).unwrap_or_default();
         for (t, k, w) in blocked {
             let (ow, or) = occ.iter().find(|x| x.0 == *k).map(|x| (x.1, x.2)).unwrap_or((0, 0));
@@ -467,7 +472,7 @@ fn gen_cases(a: &Args, rng: &mut Rng) -> Vec<(Vec<Vec<Op>>, Vec<usize>, &'static
         cs.push((progs, block_schedule(&[(o[0], a0), (o[1], b0), (o[2], c0), (o[3], d0)]), "window_3thr"));
     }
     // 3. random disciplined programs (ascending page order), 2 and 3 threads, sticky random schedules
-    let nr = if thorough { 4000 } else { 500 };
+    let nr = if thorough { 4000 } else { 360 };
     for i in 0..nr {
         let n = if i % 3 == 2 { 3 } else { 2 };
         let pages: &[i64] = if rng.chance(1, 2) { &[7] } else if rng.chance(1, 2) { &[7, 8] } else { &[7, 8, 107] };
